@@ -283,5 +283,5 @@ Proof.
   rewrite Hrel.
   assert (Hp : prefixb "/" (fn ++ lost_suffix)%string = false).
   { destruct fn as [|y fn]; [contradiction|]. simpl in *. exact Hrel. }
-  rewrite Hp. destruct (String.eqb _ "/"); rewrite ?append_assoc; reflexivity.
+  rewrite Hp. destruct (last_is _ _); rewrite ?append_assoc; reflexivity.
 Qed.
